@@ -52,7 +52,7 @@ def clone_mods(mods):
     return out
 
 
-def build_variants(mods, optsets, jobs=3, prefix="opt", select=None):
+def build_variants(mods, optsets, jobs=3, prefix="opt", select=None, moddrv_extra=None):
     """build clones of mods under every option set; returns [(opts, clones)] in the order of optsets.
     The compiler copy and the skeleton archive are built once, before the threads start.
     select(module, opts) -> bool: build only these modules under that option set."""
@@ -62,7 +62,7 @@ def build_variants(mods, optsets, jobs=3, prefix="opt", select=None):
 
     def one(i):
         cl = clone_mods([m for m in mods if select is None or select(m, optsets[i])])
-        build_modules(cl, tag="%s%d" % (prefix, i + 1), opts=optsets[i])
+        build_modules(cl, tag="%s%d" % (prefix, i + 1), opts=optsets[i], moddrv_extra=moddrv_extra)
         return cl
 
     with ThreadPoolExecutor(max_workers=jobs) as ex:
